@@ -30,13 +30,18 @@ def run(ctx):
     thorough = ctx.tier == "thorough"
     # statements with real join structure (OPTIONAL, anchor bindings, bounds, aliases) over their own graphs come from the
     # planner family's statement generator; here only the outcome class matters
+    gen_broken = []
     extra = os.path.join(ctx.work, "extra.jsonl")
     with open(extra, "w") as f:
         for fam, n in (("c03", 2500 if thorough else 250), ("c10", 2500 if thorough else 300), ("c14", 600 if thorough else 60)):
-            rc, out = sh([os.path.join(BIN, "h_query"), "-mode", "gen", "-family", fam, "-n", str(n), "-seed", str(ctx.seed)],
-                         cwd=REPO, env=vcheck.goenv(), timeout=1200)
+            try:
+                rc, out = sh([os.path.join(BIN, "h_query"), "-mode", "gen", "-family", fam, "-n", str(n), "-seed", str(ctx.seed)],
+                             cwd=REPO, env=vcheck.goenv(), timeout=400)
+            except Exception as e:     # the generator executes its statements on the engine: a hang there is a symptom
+                rc, out = 1, "h_query -mode gen did not finish: %r" % e
             if rc != 0:
-                raise vcheck.Broken("h_query -mode gen failed", out[-2000:])
+                gen_broken.append((fam, out[-1500:]))
+                continue
             for l in out.splitlines():
                 if l.startswith("{"):
                     d = json.loads(l)
@@ -61,6 +66,9 @@ def run(ctx):
             if reported <= 6:
                 ctx.violation({"kind": "engine-" + r["outcome"], "case": r,
                                "explain": "executing this text did not end in a table or an error"})
+    if gen_broken and reported == 0:
+        ctx.broken("the statement generator of the planner family (h_query -mode gen, which executes its statements) failed or hung "
+                   "and the crash-mode run found no bad outcome itself", json.dumps(gen_broken)[:3000])
     for k in known:
         if hits[k["id"]]:
             ctx.known("%s: %s at %s (%d texts in this run, e.g. witness %s)" % (k["id"], k["class"], k["site"], hits[k["id"]], k.get("witness", "")))
